@@ -8,12 +8,21 @@ package main
 import (
 	"bufio"
 	"bytes"
+	"context"
 	"encoding/base64"
 	"encoding/json"
 	"fmt"
+	"io"
 	"os"
 	"runtime/debug"
+	"strings"
+	"sync"
 	"time"
+
+	"github.com/docker/cli/cli/command"
+	"github.com/docker/docker/api/types"
+	apicontainer "github.com/docker/docker/api/types/container"
+	"github.com/docker/docker/client"
 
 	"github.com/tdakkota/docker-logql/internal/lokiapi"
 )
@@ -105,11 +114,64 @@ func vStep(req vreq) (map[string]any, error) {
 	return map[string]any{"step": int64(d)}, nil
 }
 
+// vCli is a docker CLI whose only working part is Client(); vClient is a daemon with one container whose log is empty and
+// which records the options of every ContainerLogs request.
+type vCli struct {
+	command.Cli
+	c client.APIClient
+}
+
+func (c vCli) Client() client.APIClient { return c.c }
+
+type vClient struct {
+	client.APIClient
+	mu   sync.Mutex
+	opts []apicontainer.LogsOptions
+}
+
+func (c *vClient) ContainerList(context.Context, apicontainer.ListOptions) ([]types.Container, error) {
+	return []types.Container{{ID: "c0", Names: []string{"/web"}, State: "running"}}, nil
+}
+
+func (c *vClient) ContainerLogs(_ context.Context, _ string, o apicontainer.LogsOptions) (io.ReadCloser, error) {
+	c.mu.Lock()
+	c.opts = append(c.opts, o)
+	c.mu.Unlock()
+	return io.NopCloser(strings.NewReader("")), nil
+}
+
+// vQueryCmd runs the real `query` command (flag parsing, parseTimeRange, parseStep, the glue that hands the resolved range
+// to the engine) and reports the window the daemon was asked for, with the wall clock read before and after
+func vQueryCmd(req vreq) (map[string]any, error) {
+	cl := &vClient{}
+	cmd := queryCmd(vCli{c: cl})
+	var args []string
+	for _, a := range vget[[]string](req, "args") {
+		args = append(args, vunb64(a))
+	}
+	cmd.SetArgs(args)
+	var out, errb bytes.Buffer
+	cmd.SetOut(&out)
+	cmd.SetErr(&errb)
+	cmd.SilenceUsage = true
+	cmd.SilenceErrors = true
+	lo := time.Now()
+	err := cmd.ExecuteContext(context.Background())
+	hi := time.Now()
+	res := map[string]any{"now_lo": lo.UnixNano(), "now_hi": hi.UnixNano()}
+	var asked [][2]string
+	for _, o := range cl.opts {
+		asked = append(asked, [2]string{o.Since, o.Until})
+	}
+	res["asked"] = asked
+	return res, err
+}
+
 func init() {
 	if os.Getenv("VERIF_HARNESS") != "1" {
 		return
 	}
-	hs := map[string]func(vreq) (map[string]any, error){"render": vRender, "timerange": vTimeRange, "step": vStep}
+	hs := map[string]func(vreq) (map[string]any, error){"render": vRender, "timerange": vTimeRange, "step": vStep, "querycmd": vQueryCmd}
 	dec := json.NewDecoder(bufio.NewReaderSize(os.Stdin, 1<<20))
 	out := bufio.NewWriterSize(os.Stdout, 1<<20)
 	enc := json.NewEncoder(out)
